@@ -88,6 +88,17 @@ func c10Draw(rt *rapid.T) c10Case {
 	return k
 }
 
+// tolEq compares two tolerations by value (tolerationSeconds is a pointer).
+func tolEq(a, b corev1.Toleration) bool {
+	if a.Key != b.Key || a.Operator != b.Operator || a.Value != b.Value || a.Effect != b.Effect {
+		return false
+	}
+	if (a.TolerationSeconds == nil) != (b.TolerationSeconds == nil) {
+		return false
+	}
+	return a.TolerationSeconds == nil || *a.TolerationSeconds == *b.TolerationSeconds
+}
+
 // c10Usable: the override annotation value exists and decodes into resource requirements.
 func c10Usable(val string) bool {
 	if val == "" {
@@ -220,7 +231,7 @@ func runC10(k c10Case) (vs []mon.V, err error) {
 	for _, dt := range oracle.DefaultTolerations {
 		found := false
 		for _, t := range pod.Spec.Tolerations {
-			if t == dt {
+			if tolEq(t, dt) {
 				found = true
 			}
 		}
@@ -231,7 +242,7 @@ func runC10(k c10Case) (vs []mon.V, err error) {
 	for _, tt := range k.Template.Spec.Tolerations {
 		found := false
 		for _, t := range pod.Spec.Tolerations {
-			if t == tt {
+			if tolEq(t, tt) {
 				found = true
 			}
 		}
